@@ -4,6 +4,7 @@ package token
 
 import (
 	"encoding/json"
+	"github.com/golang-jwt/jwt/v4"
 	"sort"
 	"testing"
 	"time"
@@ -17,6 +18,7 @@ type verifReq struct {
 	Tok     int    `json:"tok"`     // index into tokens, -1 = no Authorization header
 	Scheme  string `json:"scheme"`  // prefix put before the token text
 	Advance int64  `json:"advance"` // seconds the virtual clock moves before the request
+	JAdv    int64  `json:"jadv"`    // seconds the jwt library's clock (jwt.TimeFunc) moves before the request
 }
 
 type verifCase struct {
@@ -55,6 +57,9 @@ func TestVerifDriver(t *testing.T) {
 		timex.VerifSetNow(time.Hour)
 		defer timex.VerifClockOff()
 		wall := time.Now()
+		var jshift int64
+		jwt.TimeFunc = func() time.Time { return wall.Add(time.Duration(jshift) * time.Second) }
+		defer func() { jwt.TimeFunc = time.Now }()
 		texts := make([]string, len(c.Tokens))
 		for i, ts := range c.Tokens {
 			texts[i] = verifc04.Mint(ts, wall)
@@ -69,14 +74,20 @@ func TestVerifDriver(t *testing.T) {
 		hidx := map[string]int{}
 		type row struct {
 			Header int          `json:"header"`
+			Jt     int          `json:"jt"`  // index of the jwt clock reading at the request
 			Now    int64        `json:"now"` // virtual clock (ns) at the request
 			Ok     bool         `json:"ok"`
 			Valid  bool         `json:"valid"`
 			Counts []verifCount `json:"counts"`
 		}
 		rows := []row{}
+		shifts := []int64{}
 		for _, rq := range c.Reqs {
 			timex.VerifAdvance(time.Duration(rq.Advance) * time.Second)
+			jshift += rq.JAdv
+			if len(shifts) == 0 || shifts[len(shifts)-1] != jshift {
+				shifts = append(shifts, jshift)
+			}
 			h := ""
 			if rq.Tok >= 0 {
 				h = rq.Scheme + texts[rq.Tok]
@@ -86,17 +97,22 @@ func TestVerifDriver(t *testing.T) {
 				headers = append(headers, h)
 			}
 			tok, err := p.ParseToken(verifc04.Request(h), c.Secret, c.Prev)
-			rows = append(rows, row{Header: hidx[h], Now: int64(timex.Now()), Ok: err == nil,
+			rows = append(rows, row{Header: hidx[h], Jt: len(shifts) - 1, Now: int64(timex.Now()), Ok: err == nil,
 				Valid: tok != nil && tok.Valid, Counts: verifDump(p)})
 		}
-		oracle := make([]map[string]verifc04.Verdict, len(headers))
-		for i, h := range headers {
-			oracle[i] = map[string]verifc04.Verdict{}
-			for _, s := range c.Secrets {
-				oracle[i][s] = verifc04.Oracle(h, s)
+		// the library's own verdict per (clock reading, header, secret)
+		oracle := make([][]map[string]verifc04.Verdict, len(shifts))
+		for ti, sh := range shifts {
+			jshift = sh
+			oracle[ti] = make([]map[string]verifc04.Verdict, len(headers))
+			for i, h := range headers {
+				oracle[ti][i] = map[string]verifc04.Verdict{}
+				for _, s := range c.Secrets {
+					oracle[ti][i][s] = verifc04.Oracle(h, s)
+				}
 			}
 		}
-		return map[string]any{"rows": rows, "oracle": oracle, "nheaders": len(headers),
+		return map[string]any{"rows": rows, "oracle": oracle, "nheaders": len(headers), "shifts": shifts,
 			"reset_time": int64(p.resetTime), "reset_dur": int64(p.resetDuration)}
 	})
 }
